@@ -241,3 +241,11 @@ Proof.
   destruct (code_imports (da_text b) ds); [exact F1 | exact F1].
 Qed.
 End D.
+
+(* the whole declaration without anything but descriptors is the descriptor fold *)
+Lemma declared_full_no_extras : forall T fo ds,
+  declared_full T fo no_extras ds = (None, declared T (fo_base fo) ds).
+Proof.
+  intros T fo ds. unfold declared_full, pre_phase, declared, fold_descs. cbn [ex_self ex_refs ex_jsx ex_jsx_types ex_jsdoc ex_header no_extras].
+  destruct (do_types (fo_base fo)); destruct (fo_jsx fo); reflexivity.
+Qed.
